@@ -147,5 +147,8 @@ def r4_pow(rep, ctx):
         lp = body[1]
         rng = ast.unparse(lp.iter).replace(" ", "")
         step = [ast.unparse(s).replace(" ", "") for s in lp.body]
+        import re
+        if not re.fullmatch(r"range\(exponent([+-]\d+)?\)", rng) or len(step) != 1 or not re.fullmatch(r"result=(result\*self|self\*result|result\*result|self\*self)", step[0]):
+            raise AnalysisError("%s.__pow__ is not the linear 'multiply exponent-1 times' idiom (loop over %s doing %s): the checker cannot tell whether another algorithm computes the n-fold product" % (cname, rng, step))
         rep.check(rng == "range(exponent-1)", "C04.R4", "%s.__pow__:count" % cname, "the loop runs exponent - 1 times", "the loop runs %s times: a ** n is not the n-fold product" % rng, node=lp, fn=fn)
         rep.check(step in (["result=result*self"], ["result=self*result"]), "C04.R4", "%s.__pow__:step" % cname, "each step multiplies the running result by self", "each step does %s" % step, node=lp, fn=fn)
